@@ -134,7 +134,7 @@ theorem findIP_o (h : Fam c ms A B T o fs) (i : String) (ra X : List (String × 
     rw [findSelection_leaves o _ _ (fun hm => o_not_in_ms h (owned_names_sub ms A o hm))]
     simp only [beq_self_eq_true, ↓reduceIte, Flat.Qown]
     exact findSelection_head o o [] [] _ [] _ [] o (by simp)
-  unfold findIP
+  unfold findIP findIPW
   rw [hfs, lookup_append_not_mem o _ ra hra]
   simp [selType, Flat.Qown, TypeRef.isList, extractID, hid, bind, Except.bind, fmtID, Flat.pointQ]
 
